@@ -57,6 +57,8 @@ def run(F, rep, tier):
     core.borrow(rep, c03.obligations, lambda o: "tuple-length" in o["key"], F)
     # .. and the operator checkers recurse element-wise only into tuples of the same length
     core.borrow(rep, lambda F_, r_: c03.accept(F_, r_, "ACCEPT"), lambda o: o["key"].endswith("|tuple-length-guard"), F)
+    # the field checks of a blob literal are reached for every literal: no way out of the arm in front of them that is not an error
+    core.borrow(rep, c03.visit, lambda o: o["rule"] == "VISIT-tc" and "|Blob." in o["key"], F)
 
 
 def blob_arm(F, rep):
@@ -148,14 +150,22 @@ def shape_handlers(F, rep):
         rows = type_rows(arm)
         ok_unknown = "Unknown" in rows and tc.is_ok_unit(rows["Unknown"]["body"])
         dflt = "_" in rows and tc.is_err_value(rows["_"]["body"])
-        blob = rows.get("Blob")
-        miss = False
-        if blob is not None:
-            for m in nodes(blob["body"], "Match"):
+        # .. in every row that looks a field up - the blob row and the externblob row alike
+        miss = True
+        seen_rows = []
+        for rname in ("Blob", "ExternBlob"):
+            row = rows.get(rname)
+            if row is None or any(row is r_ for r_ in seen_rows):
+                continue
+            seen_rows.append(row)
+            row_miss = False
+            for m in nodes(row["body"], "Match"):
                 for a in m["arms"]:
                     for alt in pat_alternatives(a["pat"]):
                         if (pat_variant(alt) or "").endswith("Option::None"):
-                            miss = tc.is_err_value(a["body"]) and tc.err_kind(a["body"]) == "MissingField"
+                            row_miss = tc.is_err_value(a["body"]) and tc.err_kind(a["body"]) == "MissingField"
+            miss = miss and row_miss
+        miss = miss and bool(seen_rows)
         accepted = {k for k, a in rows.items() if not tc.is_err_value(a["body"])}
         rep.ob("SHAPE-ACCEPT", "Field|rows", ok_unknown and dflt and accepted == {"Unknown", "Blob", "ExternBlob"},
                "field access is accepted on %s only; any other type is an error" % sorted(accepted), line_of(arm))
